@@ -161,7 +161,7 @@ class CEmitter:
             return ('const', t, round_to(v, t[1]))
         if a[0] == 'cast':
             inner = self.fold_cast(a[1], a[2])
-            if inner[0] == 'const':
+            if inner is not None and inner[0] == 'const':
                 return self.fold_cast(t, inner)
         return None
 
